@@ -337,3 +337,8 @@ def fidelity(tier, seed):
     """A-FRONT guard: the scalar functions of the files under contract, interpreter (float mode) vs compiled real code, bit for bit"""
     from gm2v import fidelity as _fid
     return _fid.scalar_guard(['src/gm2_mf.cpp'], ['src/gm2_numerics.cpp'], n_calls=25 if tier == 'quick' else 200, seed=seed)
+
+# Contracts on single calls carry over to every call in a process only if no function keeps state between calls: C19's static-frame obligation is a lemma here.
+from contracts.shared import reregister as _rr_static
+from contracts import c19 as _c19_static
+_rr_static('C20', 'C19', 'C19.no_stateful_local_statics', 'C20.lemma.no_state_between_calls', replay=None)
